@@ -640,3 +640,154 @@ func (fv *FV) applyLemma(st *State, env *Env, g *GhostStmt, pos token.Pos) {
 	concl := fv.specBool(lenv, body)
 	fv.assume(st, implies(prem, concl))
 }
+
+// ---------------------------------------------------------------------------
+// Locals that only ever hold known functions (`next := (*Ring[T]).Next; if … { next = (*Ring[T]).Prev }`).
+// A call through such a local is a case split over its candidates, each called by its own contract.
+
+type funcCand struct {
+	fn         *types.Func
+	methodExpr bool // (*T).M: the receiver is the first argument of the call
+}
+
+func (c funcCand) recvArg(call *ast.CallExpr) ast.Expr {
+	if c.methodExpr && len(call.Args) > 0 {
+		return call.Args[0]
+	}
+	return nil
+}
+
+func (c funcCand) args(call *ast.CallExpr) []ast.Expr {
+	if c.methodExpr && len(call.Args) > 0 {
+		return call.Args[1:]
+	}
+	return call.Args
+}
+
+// funcOfExpr recognises an expression that denotes a declared function or a method expression.
+func (fv *FV) funcOfExpr(e ast.Expr) (funcCand, bool) {
+	switch x := ast.Unparen(e).(type) {
+	case *ast.Ident:
+		if f, ok := fv.info.ObjectOf(x).(*types.Func); ok {
+			return funcCand{fn: f}, true
+		}
+	case *ast.IndexExpr:
+		if id, ok := x.X.(*ast.Ident); ok {
+			if f, ok := fv.info.ObjectOf(id).(*types.Func); ok {
+				return funcCand{fn: f}, true
+			}
+		}
+	case *ast.SelectorExpr:
+		if sel := fv.info.Selections[x]; sel != nil && sel.Kind() == types.MethodExpr {
+			if f, ok := sel.Obj().(*types.Func); ok {
+				return funcCand{fn: f, methodExpr: true}, true
+			}
+		}
+	}
+	return funcCand{}, false
+}
+
+func (fv *FV) collectFuncCands(body *ast.BlockStmt) map[types.Object][]funcCand {
+	out := map[types.Object][]funcCand{}
+	bad := map[types.Object]bool{}
+	note := func(lhs ast.Expr, rhs ast.Expr) {
+		id, ok := ast.Unparen(lhs).(*ast.Ident)
+		if !ok {
+			return
+		}
+		o := fv.info.ObjectOf(id)
+		if o == nil {
+			return
+		}
+		if _, isSig := o.Type().Underlying().(*types.Signature); !isSig {
+			return
+		}
+		if rhs == nil {
+			bad[o] = true
+			return
+		}
+		c, ok := fv.funcOfExpr(rhs)
+		if !ok {
+			bad[o] = true
+			return
+		}
+		for _, have := range out[o] {
+			if have.fn == c.fn {
+				return
+			}
+		}
+		out[o] = append(out[o], c)
+	}
+	ast.Inspect(body, func(n ast.Node) bool {
+		switch y := n.(type) {
+		case *ast.AssignStmt:
+			if len(y.Lhs) == len(y.Rhs) {
+				for i := range y.Lhs {
+					note(y.Lhs[i], y.Rhs[i])
+				}
+			} else {
+				for _, l := range y.Lhs {
+					note(l, nil)
+				}
+			}
+		case *ast.ValueSpec:
+			for i, nm := range y.Names {
+				if i < len(y.Values) {
+					note(nm, y.Values[i])
+				} else {
+					note(nm, nil)
+				}
+			}
+		case *ast.UnaryExpr:
+			if y.Op == token.AND { // address taken: anything may be stored
+				if id, ok := ast.Unparen(y.X).(*ast.Ident); ok {
+					if o := fv.info.ObjectOf(id); o != nil {
+						bad[o] = true
+					}
+				}
+			}
+		}
+		return true
+	})
+	for o := range bad {
+		delete(out, o)
+	}
+	return out
+}
+
+// callCandidates calls a function-valued local through each of the functions it can hold.
+func (fv *FV) callCandidates(st *State, v Term, cands []funcCand, c *ast.CallExpr, what string) []Term {
+	var conds []string
+	for _, cand := range cands {
+		conds = append(conds, eq(v.S, fv.funcValue(cand.fn).S))
+	}
+	fv.safety(st, "funcvalue["+what+"]", or(conds...), "the function value is one of the functions assigned to "+what, c.Pos())
+	var subs []*State
+	var results [][]Term
+	for i, cand := range cands {
+		sub := fv.fork(st, conds[i])
+		c2 := &ast.CallExpr{Fun: c.Fun, Lparen: c.Lparen, Args: cand.args(c), Ellipsis: c.Ellipsis, Rparen: c.Rparen}
+		if tv, ok := fv.info.Types[c]; ok {
+			fv.info.Types[c2] = tv // the synthetic call has the type of the original one
+		}
+		var recv *Term
+		recvExpr := cand.recvArg(c)
+		if recvExpr != nil {
+			t := fv.evalExpr(sub, recvExpr)
+			recv = &t
+		}
+		results = append(results, fv.callStatic(sub, cand.fn, recv, recvExpr, c2))
+		subs = append(subs, sub)
+	}
+	m := fv.merge(subs...)
+	*st = *m
+	out := results[len(results)-1]
+	for i := len(results) - 2; i >= 0; i-- {
+		next := make([]Term, len(out))
+		for k := range out {
+			next[k] = Term{S: ite(conds[i], results[i][k].S, out[k].S), Sort: out[k].Sort, T: out[k].T}
+		}
+		out = next
+	}
+	return out
+}
